@@ -334,23 +334,29 @@ def groupPayload (name : String) : Bytes := bytesOfString s!"groupname:{name}\n"
     the value returned so far (`none`: still executing) -/
 def gstep (pi : Nat) (s : W × Option Bool) (st : GStep) : W × Option Bool :=
   if s.2.isSome then s else
-  match s.1.pools[pi]? with
-  | none => s
-  | some p =>
-    match st with
-    | .call f =>
+  match st with
+  | .ret b => (s.1, some b)
+  | .call f =>
+    match s.1.pools[pi]? with
+    | some p =>
       if f == "before_remove" && beforeRemoveUnsubscribes then ({ s.1 with reg := unsubscribePool pi p s.1.reg }, none)
       else s
-    | .insertMade _ =>
+    | none => s
+  | .insertMade _ =>
+    match s.1.pools[pi]? with
+    | some p =>
       ({ setPool s.1 pi (fun q => { q with active := true, used := true }) with
            reg := if initSubscribes then subscribePool pi p s.1.reg else s.1.reg }, none)
-    | .delete => (setPool s.1 pi (fun q => { q with active := false }), none)
-    | .notify cls =>
-      match clsOfGroupEvent cls with
-      | some c => (notify c (groupPayload p.name) s.1, none)
-      | none => s
-    | .ret b => (s.1, some b)
-    | .retIfUnstopped b => if unstopped p then (s.1, some b) else s
+    | none => s
+  | .delete => (setPool s.1 pi (fun q => { q with active := false }), none)
+  | .notify cls =>
+    match s.1.pools[pi]?, clsOfGroupEvent cls with
+    | some p, some c => (notify c (groupPayload p.name) s.1, none)
+    | _, _ => s
+  | .retIfUnstopped b =>
+    match s.1.pools[pi]? with
+    | some p => if unstopped p then (s.1, some b) else s
+    | none => s
 
 def runGroup (pi : Nat) (steps : List GStep) (w : W) : W × Option Bool := steps.foldl (gstep pi) (w, none)
 
